@@ -79,6 +79,7 @@ func main() {
 		{"sendpanics", func() string { return lib.SendPanics() }, "send on closed channel"},
 		{"mapmutate", func() string { return lib.MapMutate() }, ""},
 		{"handoff", func() string { return fmt.Sprint(lib.Handoff()) }, "42"},
+		{"selectreturns", func() string { return fmt.Sprint(lib.SelectReturns()) }, "42"},
 		{"lockedupdate", func() string { a, b := lib.LockedUpdate(5); return fmt.Sprint(a, b) }, "10 10"},
 		{"rmwforms", func() string { return lib.RMWForms() }, "16 420abc[1 2 3 4] 4 20"},
 		{"lostupdate", func() string { a, b := lib.LostUpdate(4); return fmt.Sprint(a < 4 || b < 4) }, ""},
